@@ -8,6 +8,8 @@
 package main
 
 import (
+	"crypto/sha256"
+	"encoding/hex"
 	"encoding/json"
 	"fmt"
 	"os"
@@ -17,6 +19,7 @@ import (
 	"strconv"
 	"strings"
 	"sync"
+	"sync/atomic"
 	"syscall"
 	"time"
 
@@ -153,6 +156,10 @@ func run(id string, info propInfo, tier string, seed uint64, replay string) int 
 		"VERIF_PLUGIN="+tools.Plugin, "VERIF_GOGO="+tools.Gogo, "VERIF_REPO="+repo,
 		"VERIF_SCRATCH="+scratch, "VERIF_TIER="+tier)
 
+	if deps := ensureDepsCache(testBin, baseEnv, scratch); deps != "" {
+		baseEnv = append(baseEnv, "VERIF_GOCACHE_DEPS="+deps)
+	}
+
 	kf := loadFindings()
 	var knownLines []string
 	exclude := []string{}
@@ -160,12 +167,20 @@ func run(id string, info propInfo, tier string, seed uint64, replay string) int 
 	// pass. A known finding's probe is run for every property (its shape would break other
 	// checks too): while it still fails the shape is excluded from generation by construction
 	// and, for the finding's own property, a KNOWN-FINDING line is printed.
+	var probes []string
+	for _, f := range kf.Findings {
+		if f.Probe == "" || (f.Status != "known" && f.Property != id) {
+			continue
+		}
+		probes = append(probes, filepath.Join(verifRoot, f.Probe))
+	}
+	probeRes := runReplays(testBin, baseEnv, scratch, probes)
 	for _, f := range kf.Findings {
 		if f.Probe == "" || (f.Status != "known" && f.Property != id) {
 			continue
 		}
 		probe := filepath.Join(verifRoot, f.Probe)
-		st, msg := runReplay(testBin, baseEnv, scratch, probe)
+		st, msg := probeRes[probe].st, probeRes[probe].msg
 		switch {
 		case st == 2:
 			fmt.Fprintf(os.Stderr, "probe %s inconclusive: %s\n", f.Probe, msg)
@@ -213,11 +228,15 @@ func run(id string, info propInfo, tier string, seed uint64, replay string) int 
 	for _, f := range kf.For(id) {
 		probeSet[filepath.Join(verifRoot, f.Probe)] = true
 	}
+	var regress []string
 	for _, s := range saved {
-		if probeSet[s] {
-			continue
+		if !probeSet[s] {
+			regress = append(regress, s)
 		}
-		st, msg := runReplay(testBin, baseEnv, scratch, s)
+	}
+	regressRes := runReplays(testBin, baseEnv, scratch, regress)
+	for _, s := range regress {
+		st, msg := regressRes[s].st, regressRes[s].msg
 		if st == 1 {
 			fmt.Println(msg)
 			fmt.Printf("VIOLATION property=%s replay=%s\n", id, s)
@@ -437,8 +456,37 @@ func lastLines(s string, n int) string {
 }
 
 // runReplay runs one saved case; returns 0 held, 1 violated (msg), 2 inconclusive.
+var replaySeq int64
+
+type replayResult struct {
+	st  int
+	msg string
+}
+
+// runReplays runs the given replay files (each in a process of its own), up to eight at a time.
+func runReplays(testBin string, env []string, scratch string, files []string) map[string]replayResult {
+	res := make(map[string]replayResult, len(files))
+	var mu sync.Mutex
+	var wg sync.WaitGroup
+	sem := make(chan struct{}, 8)
+	for _, f := range files {
+		wg.Add(1)
+		go func(f string) {
+			defer wg.Done()
+			sem <- struct{}{}
+			defer func() { <-sem }()
+			st, msg := runReplay(testBin, env, scratch, f)
+			mu.Lock()
+			res[f] = replayResult{st, msg}
+			mu.Unlock()
+		}(f)
+	}
+	wg.Wait()
+	return res
+}
+
 func runReplay(testBin string, env []string, scratch, file string) (int, string) {
-	out := filepath.Join(scratch, fmt.Sprintf("replay-%d.json", time.Now().UnixNano()))
+	out := filepath.Join(scratch, fmt.Sprintf("replay-%d-%d.json", time.Now().UnixNano(), atomic.AddInt64(&replaySeq, 1)))
 	c := exec.Command(testBin, "-test.run", "^TestReplay$", "-test.count=1", "-test.timeout", "30m")
 	c.Dir = scratch
 	c.Env = append(append([]string{}, env...), "VERIF_REPLAY_FILE="+file, "VERIF_SHARD_OUT="+out)
@@ -562,4 +610,63 @@ func writeEvidence(id, tier string, seed uint64, info propInfo, shards []*props.
 	}
 	_ = os.MkdirAll(evDir, 0o755)
 	_ = os.WriteFile(filepath.Join(evDir, id+".json"), append(b, '\n'), 0o644)
+}
+
+// ensureDepsCache returns a warmed Go build cache that holds what every compiled case shares (standard library,
+// terraform-plugin-framework, gogo/protobuf, rapid, the harness's run-time packages); case builds seed their private,
+// recycled GOCACHE from it (pipeline/gocache.go). It lives under <verif>/bin, is named after the harness sources
+// it was built from, and is created on first use by compiling the repository's fixture case. Any failure here only
+// costs build time: "" makes the case builds fall back to the environment's cache.
+func ensureDepsCache(testBin string, env []string, scratch string) string {
+	if os.Getenv("VERIF_SHARED_GOCACHE") != "" {
+		return ""
+	}
+	h := sha256.New()
+	hd := pipeline.HarnessDir()
+	for _, pat := range []string{"go.mod", "go.sum", "rt/*.go", "support/*.go", "model/*.go", "ir/*.go"} {
+		files, _ := filepath.Glob(filepath.Join(hd, pat))
+		sort.Strings(files)
+		for _, f := range files {
+			b, _ := os.ReadFile(f)
+			fmt.Fprintf(h, "%s %d\n", filepath.Base(f), len(b))
+			h.Write(b)
+		}
+	}
+	if v, err := exec.Command("go", "version").Output(); err == nil {
+		h.Write(v)
+	}
+	bin := filepath.Join(verifRoot, "bin")
+	dir := filepath.Join(bin, "gocache-deps-"+hex.EncodeToString(h.Sum(nil))[:12])
+	if _, err := os.Stat(filepath.Join(dir, ".warm")); err == nil {
+		return dir
+	}
+	fixture := filepath.Join(verifRoot, "replays", "C03", "fixture-test-proto.json")
+	if _, err := os.Stat(fixture); err != nil {
+		return ""
+	}
+	tmp := fmt.Sprintf("%s.tmp-%d", dir, os.Getpid())
+	_ = os.RemoveAll(tmp)
+	if err := os.MkdirAll(tmp, 0o755); err != nil {
+		return ""
+	}
+	if st, msg := runReplay(testBin, append(append([]string{}, env...), "GOCACHE="+tmp), scratch, fixture); st != 0 {
+		fmt.Fprintf(os.Stderr, "note: warming the dependency build cache failed (%s); case builds use the shared cache\n", lastLines(msg, 3))
+		_ = os.RemoveAll(tmp)
+		return ""
+	}
+	_ = os.WriteFile(filepath.Join(tmp, ".warm"), []byte(time.Now().Format(time.RFC3339)+"\n"), 0o644)
+	if err := os.Rename(tmp, dir); err != nil {
+		_ = os.RemoveAll(tmp) // another run was faster
+		if _, err := os.Stat(filepath.Join(dir, ".warm")); err != nil {
+			return ""
+		}
+	}
+	// warmed caches of older harness sources
+	old, _ := filepath.Glob(filepath.Join(bin, "gocache-deps-*"))
+	for _, o := range old {
+		if fi, err := os.Stat(o); err == nil && o != dir && time.Since(fi.ModTime()) > 6*time.Hour {
+			_ = os.RemoveAll(o)
+		}
+	}
+	return dir
 }
